@@ -89,7 +89,8 @@ static inline void logWeightedChecks(const std::vector<double>& v0, const std::v
   auto in = [&] { return "v=" + vf::vstr(v) + " w=" + vf::vstr(w) + (cst != 0 ? " (v = " + vf::vstr(v0) + " shifted by " + vf::num(cst) + ")" : std::string()); };
   if (c.verbose) c.note("input " + in());
   { bool infmax = false; for (double x : v0) if (x == INF) infmax = true; if (!infmax && !v0.empty()) { infmax = true; for (double x : v0) if (x != -INF) infmax = false; }
-    if (infmax && cst != 0) { c.tag("weighted:infinite-maximum:shift-is-identity(skipped)"); return; } }   // the maximum stays infinite under every shift: same refusal path as with shift 0, which is executed
+    // the maximum stays infinite under every shift: same refusal path as with shift 0, which is executed
+    if (infmax && cst != 0) { c.tag("weighted:infinite-maximum:shift-changes-nothing(skipped)"); return; } }
   double r1 = 0, r2 = 0;
   c.site("VectorTools::logSumExp(v,w)");
   Ex e1 = guard<double>([&] { r1 = VT::logSumExp(v, w); });
@@ -120,12 +121,17 @@ static inline void logWeightedChecks(const std::vector<double>& v0, const std::v
   Lse L = rlseW(v, w);
   // class of the input: does every entry above the largest positively weighted exponent carry weight zero?
   std::string cls = ((LD)mx > L.M) ? "max-has-zero-weight" : "max-has-positive-weight";
-  if (e1 != NONE) c.fail("logSumExp(v,w)|unexpected-exception|" + cls, in() + ": " + exname(e1));
+  // when the largest exponent with a positive weight is -inf (or no weight is positive) the value is log-zero / zero; the same
+  // refusal as for an infinite overall maximum is accepted there
+  bool refusable = L.kind != 0;
+  if (e1 == BADNUM && refusable) c.tag("weighted:infinite-maximum-refused(BadNumberException)");
+  else if (e1 != NONE) c.fail("logSumExp(v,w)|unexpected-exception|" + cls, in() + ": " + exname(e1));
   else if (L.kind < 0) { if (r1 != -INF) c.fail("logSumExp(v,w)|value|" + cls, in() + ": got " + vf::num(r1) + " expected -inf"); }
   else if (!closeTo(r1, L.value, L.tol)) c.fail("logSumExp(v,w)|value|" + cls, in() + ": got " + vf::num(r1) + " expected " + ld(L.value));
   else { if (mx > LOGMAX) c.tag("lse-weighted:finite-where-naive-overflows"); if (mx < LOGMIN) c.tag("lse-weighted:finite-where-naive-underflows"); }
   SumExp S = rsumexp(L, n);
-  if (e2 != NONE) c.fail("sumExp(v,w)|unexpected-exception|" + cls, in() + ": " + exname(e2));
+  if (e2 == BADNUM && refusable) c.tag("weighted:infinite-maximum-refused(BadNumberException)");
+  else if (e2 != NONE) c.fail("sumExp(v,w)|unexpected-exception|" + cls, in() + ": " + exname(e2));
   else if (!sumexpOk(r2, S)) {
     // exp(max) alone overflows although the weighted sum is representable: a different site (the final x * exp(M)) than the choice of the shift
     std::string cl2 = (cls == "max-has-positive-weight" && mx > LOGMAX && !S.mustBeInf && !S.mayBeInf && std::isinf(r2)) ? "representable-sum-but-exp(max)-overflows" : cls;
@@ -156,6 +162,7 @@ static inline void logsumChecks(double a0, double b0, double cst, vf::Case& c) {
   double mx = a > b ? a : b;
   if (!closeTo(r, L.value, L.tol)) c.fail("logsum|value|finite", in() + ": got " + vf::num(r) + " expected " + ld(L.value));
   if (r < mx || (LD)r > (LD)mx + logl(2) + L.tol) c.fail("logsum|outside[max,max+log 2]", in() + ": got " + vf::num(r));
+  if (mx > LOGMAX) c.tag("logsum:finite-where-naive-overflows");
   if (cst != 0) {
     double r0 = NumTools::logsum(a0, b0);
     if (std::isfinite(r0)) { LD big = std::max(fabsl((LD)a), fabsl((LD)b));
